@@ -199,6 +199,22 @@ def cases(ctx: core.Ctx) -> list:
     # (d) raw bytes
     for raw in (b"\xff", b"\xc3", b"\x00", b"\xff\xfe{}", b"{}\x00", b'{"1":"\xc3"}', b"\xef\xbb\xbf{}", b" ", b"\n", b"nan", b"Infinity", b"-Infinity", b"1e999", b"[" * 2000, b'{"a":' * 2000):
         out.append((f"raw:{raw[:12]!r}", raw, None))
+    # huge integer literals (int() refuses more than 4300 digits) and nesting of every depth inside a record
+    big = b"1" * 5000
+    for where, doc in (("document", big), ("node-id", b'{"1": {"node_id": ' + big + b', "node_type": 17, "protocol_version": "2.0"}}'),
+                       ("battery", b'{"1": {"node_id": 1, "node_type": 17, "protocol_version": "2.0", "battery_level": ' + big + b"}}"),
+                       ("key", b'{"' + big + b'": {"node_id": 1, "node_type": 17, "protocol_version": "2.0"}}'),
+                       ("child-value-key", b'{"1": {"node_id": 1, "node_type": 17, "protocol_version": "2.0", "children": {"1": {"child_id": 1, "child_type": 1, "values": {"' + big + b'": "x"}}}}}')):
+        out.append((f"bigint:{where}", doc, None))
+    for depth in (50, 200, 400, 500, 600, 750, 900, 1100, 1300, 1500, 3000):
+        for opener, closer in ((b"[", b"]"), (b'{"a":', b"}")):
+            deep = opener * depth + b"1" + closer * depth
+            rec = b'{"node_id": 1, "node_type": 17, "protocol_version": "2.0", %s}'
+            out.append((f"deep:unknown-field:{depth}", b'{"1": ' + rec % (b'"x": ' + deep) + b"}", None))
+            out.append((f"deep:sketch-name:{depth}", b'{"1": ' + rec % (b'"sketch_name": ' + deep) + b"}", None))
+            out.append((f"deep:children:{depth}", b'{"1": ' + rec % (b'"children": {"1": {"child_id": 1, "child_type": 1, "description": ' + deep + b"}}") + b"}", None))
+            out.append((f"deep:child-value:{depth}", b'{"1": ' + rec % (b'"children": {"1": {"child_id": 1, "child_type": 1, "values": {"2": ' + deep + b"}}}") + b"}", None))
+            out.append((f"deep:record:{depth}", b'{"1": ' + deep + b"}", None))
     # faults at open / read / close
     for op in ("open", "read", "close"):
         for exc in (OSError(5, "I/O error"), PermissionError(13, "denied"), IsADirectoryError(21, "is a dir"), TimeoutError("t")):
